@@ -11,8 +11,8 @@
           the two multibyte integers are read and discarded), then the xz_decompress loop + slicing
      Tar  rsplit_once('|'), enumerate the crate's entries, first entry whose path equals the
           sub-path gives entry_index / filesz_actual / mtime
-   filesz(), count_blocks / blockn, mtime() (header MTIME, 0 -> the container file's mtime;
-   seconds_to_systemtime = UNIX_EPOCH.checked_add(..).unwrap(), an explicit Panic outcome)
+   filesz(), count_blocks / blockn, mtime() (header MTIME, 0 -> the container file's mtime; tar: also
+   when seconds_to_systemtime_checked refuses the header time)
    src/readers/filepreprocessor.rs process_path_tar  (which entries become `archive|member` paths)
    src/readers/filedecompressor.rs decompress_to_ntf (what is extracted, its size and mtime)
 
@@ -163,8 +163,17 @@ Definition I64_MAX : N := 9223372036854775807.
 (* seconds_to_systemtime: SystemTime::UNIX_EPOCH.checked_add(Duration::from_secs(s)).unwrap();
    on Linux SystemTime holds i64 seconds: None (=> panic) when s > i64::MAX *)
 Definition seconds_to_systemtime (s : N) : mtime_v := if I64_MAX <? s then MPanic else MSecs s.
-(* the Gz and Tar arms of mtime() *)
+(* the Gz arm of mtime() (a u32 cannot overflow) *)
 Definition mtime_of_header (m : N) : mtime_v := if m =? 0 then MFile else seconds_to_systemtime m.
+(* seconds_to_systemtime_checked: None unless the seconds fit i64, DateTime::<Utc>::from_timestamp(secs + 86400, 0)
+   is Some (chrono's MAX_UTC is 8210266876799 s: +262142-12-31T23:59:59) and UNIX_EPOCH.checked_add succeeds *)
+Definition CHRONO_MAX_SECS : N := 8210266876799.
+Definition seconds_to_systemtime_checked (s : N) : option N :=
+  if CHRONO_MAX_SECS <? s + 86400 then None else Some s.
+(* the Tar arm of mtime(): 0 or an unrepresentable header time -> the archive file's own mtime *)
+Definition tar_mtime_of_header (m : N) : mtime_v :=
+  if m =? 0 then MFile
+  else match seconds_to_systemtime_checked m with Some s => MSecs s | None => MFile end.
 
 (* ---------------------------------------------------------------------- s4: BlockReader::new, Gz *)
 Definition GZ_MAX_SZ : N := 0x20000000.
@@ -401,8 +410,8 @@ Section TarRead.
     | CErr e => CErr e
     | CFuel => CFuel
     end.
-  (* Tar arm: first entry whose path equals the sub-path; none => Ok(None).  mtime 0 => None (no
-     fall-back to the archive's mtime here); UNIX_EPOCH + Duration panics past i64::MAX seconds *)
+  (* Tar arm: first entry whose path equals the sub-path; none => Ok(None).  mtime 0 or not
+     representable (seconds_to_systemtime_checked) => None (no fall-back to the archive's mtime here) *)
   Fixpoint tar_first (sub : bytes) (es : list tar_item) : option tar_oent :=
     match es with
     | [] => None
@@ -427,7 +436,8 @@ Section TarRead.
                 match ntf_copy fuel (toe_data e) with
                 | COk l =>
                     let m := match toe_mtime e with Some m => m | None => 0 end in
-                    COk (Some (l, if m =? 0 then None else Some (seconds_to_systemtime m)))
+                    COk (Some (l, if m =? 0 then None
+                                  else match seconds_to_systemtime_checked m with Some s => Some (MSecs s) | None => None end))
                 | CErr e' => CErr e'
                 | CFuel => CFuel
                 end
